@@ -21,7 +21,7 @@ RULE = ("(candidate set, alternative winner, assertion set) triples: n = 2..5 (6
         "RAIRE output / that output minus one / random / redundant / mutually inconsistent; every alternative winner; "
         "non-trivial = the tree has at least one pruned node and n >= 3; distinct = hash of the triple")
 REQUIRED = ["trees_built", "trees_with_unpruned_leaf", "trees_fully_pruned", "pruned_nodes_tag_checked", "marker_checked",
-            "parse_checked", "set:raire", "set:raire_minus_one", "set:random", "set:redundant", "set:inconsistent", "set:empty"]
+            "parse_checked", "set:raire", "set:raire_minus_one", "set:random", "set:redundant", "set:inconsistent", "set:empty", "parse_multi_contest_logs"]
 ASSUMPTIONS = ["tag comparison is by assertion content (the module identifies an assertion by list.index, which maps exact "
                "duplicates to one index)"]
 N_CASES = {"quick": 128000, "thorough": 1024000}
@@ -220,15 +220,37 @@ def run_parse(case, rec, V):
             ajson.append({"assertion_type": "IRV_ELIMINATION", "winner": w, "loser": l, "already_eliminated": E})
             adict[f"a{j}"] = {"winner": w, "loser": l, "proved": proved}
             want_el.append((w, set(E), proved))
-    audit = {"Audit": {"seed": 1234}, "contests": {"7": {"choice_function": "IRV", "n_winners": 1, "winner": [winner],
-                                                          "candidates": list(cands), "assertions": adict,
-                                                          "assertion_json": ajson}}}
+    contests = {"7": {"choice_function": "IRV", "n_winners": 1, "winner": [winner], "candidates": list(cands),
+                      "assertions": adict, "assertion_json": ajson}}
+    contest_id = None
+    extra = rng.choice((0, 0, 1, 2))
+    for e in range(extra):
+        # other contests in the same log, before and after the one that is drawn: a plurality contest (no assertion_json)
+        # or another IRV contest with its own assertions
+        cid = str(rng.choice((3, 5, 9, 12, 40)) + e)
+        if cid in contests:
+            continue
+        if rng.random() < 0.5:
+            contests[cid] = {"choice_function": "PLURALITY", "n_winners": 1, "winner": ["90"], "candidates": ["90", "91"],
+                             "assertions": {"90 v 91": {"winner": "90", "loser": "91", "proved": True}}}
+        else:
+            contests[cid] = {"choice_function": "IRV", "n_winners": 1, "winner": ["80"], "candidates": ["80", "81", "82"],
+                             "assertions": {"x": {"winner": "80", "loser": "81", "proved": False}},
+                             "assertion_json": [{"assertion_type": "IRV_ELIMINATION", "winner": "80", "loser": "81",
+                                                 "already_eliminated": ["82"]}]}
+    if extra:
+        rec.count("parse_multi_contest_logs")
+        order = list(contests)
+        rng.shuffle(order)
+        contests = {k: contests[k] for k in order}
+        contest_id = "7"
+    audit = {"Audit": {"seed": 1234}, "contests": contests}
     candfile = {"List": [{"Id": int(c), "Description": f"cand {c}"} for c in cands]}
-    rec.case(case, nontrivial=True, sample={"assertion_json": ajson[:3]})
+    rec.case(case, nontrivial=True, sample={"assertion_json": ajson[:3], "contests_in_log": list(contests)})
     sink = io.StringIO()
     with contextlib.redirect_stdout(sink), warnings.catch_warnings():
         warnings.simplefilter("ignore")
-        ok, res = rec.guard("c20.call:parseAssertions", V.parseAssertions, audit, candfile)
+        ok, res = rec.guard("c20.call:parseAssertions", V.parseAssertions, audit, candfile, contest_id)
     if not ok:
         return
     rec.count("parse_checked")
